@@ -9,7 +9,7 @@ import z3
 from .front import ClassInfo, FuncInfo
 from .smt import FALSE, TRUE, conj, disj
 from .state import Effect, Frame, MergeAbort, PathEnd, Unsupported
-from .values import (B, CallA, Dyn, Elems, Fn, HObj, I, IteA, IteV, JoinA, K, Lit, MapPart, Obj, OpA, PreSeq,
+from .values import (B, CallA, Dyn, Elems, Fn, Gen, HObj, I, IteA, IteV, JoinA, K, Lit, MapPart, Obj, OpA, PreSeq,
                      QuoteA, S, Sym, Tu, V)
 
 
@@ -267,16 +267,29 @@ class ExprMixin:
             out.append(p)
         return tuple(out)
 
-    def iter_parts(self, v: V) -> tuple:
-        """sequence parts of an iterable value"""
+    def iter_parts(self, v: V, ordered=True) -> tuple:
+        """sequence parts of an iterable value; ordered=True means the consumer depends on the iteration order,
+        which is recorded when the iterable is a hash-ordered set (O-DET, C02)"""
         if isinstance(v, IteV):
             v = v.a if self.decide(v.c) else v.b
+        if ordered:
+            if isinstance(v, Obj) and self.hobj(v).kind == "set":
+                fr = self.frames[-1].func.short if self.frames and self.frames[-1].func else "?"
+                self.note(f"set-iter:{self.hobj(v).path}@{fr}")
+            elif isinstance(v, K) and isinstance(v.v, (set, frozenset)):
+                self.note(f"set-iter:<constant set>")
+            elif isinstance(v, Sym) and v.tags and v.tags <= {"set", "NoneType"}:
+                self.note(f"set-iter:{v.path}")
         if isinstance(v, Tu):
             return v.parts
         if isinstance(v, Sym):
             spec = self.symspec.get(v.path, "")
+            from .core import _union_parts
             if v.tags and v.tags <= {"list", "set", "tuple"} or any(
-                    parse[0] in ("list", "set") for parse in [_ps(spec)]):
+                    _ps(part)[0] in ("list", "set") for part in _union_parts(spec or "any")):
+                if v.tags and "NoneType" in v.tags:
+                    if self.decide(self.is_none_formula(v)):
+                        raise PathEnd("raise", ("TypeError", f"{v.path} is None, not iterable"))
                 v = self.as_obj(v)
             else:
                 return (PreSeq(v.path, "any"),)
@@ -380,6 +393,9 @@ class ExprMixin:
             return B(z3.simplify(z3.If(c, self.truth(a), self.truth(b))))
         if isinstance(a, S) and isinstance(b, S):
             return S((IteA(c, a.atoms, b.atoms),))
+        ia, ib = self.int_of(a), self.int_of(b)
+        if ia is not None and ib is not None:
+            return I(z3.If(c, ia, ib))
         return IteV(c, a, b)
 
     def pure_expr(self, e: ast.expr) -> bool:
@@ -435,7 +451,7 @@ class ExprMixin:
     def sub_explore(self, f, start, limit=200):
         """explore f() from `start` as a mergeable unit: writes only to objects allocated inside"""
         self.merge_depth += 1
-        self.merge_marks.append(self._oid)
+        self.merge_marks.append(f"{self.idp}.{self.idc + 1}")      # the id the nested exploration will get
         try:
             return self.explore(f, start=start, limit=limit)
         except MergeAbort:
@@ -715,7 +731,7 @@ class ExprMixin:
                 return disj([self.truth(self.compare(ast.Eq(), item, self.from_py(x))) for x in container.v])
         if isinstance(container, S):
             return self.smt.atom(f"substr!{self.ident(item)}|{self.ident(container)}")
-        parts = self.iter_parts(container)
+        parts = self.iter_parts(container, ordered=False)
         fs = []
         for p in parts:
             if isinstance(p, Elems):
@@ -775,7 +791,8 @@ class ExprMixin:
         if isinstance(op, ast.Mod) and isinstance(a, S):
             return self.percent_format(a, b)
         if isinstance(op, ast.BitOr) and self.is_setlike(a) and self.is_setlike(b):
-            return self.new_list_parts(self.norm_parts(self.iter_parts(a) + self.iter_parts(b)), kind="set")
+            return self.new_list_parts(self.norm_parts(self.iter_parts(a, False) + self.iter_parts(b, False)),
+                                       kind="set")
         if isinstance(op, ast.Sub) and self.is_setlike(a) and self.is_setlike(b):
             lid = self.new_lid()
             return self.alloc("set", True, self.fresh_name("setdiff"),
@@ -916,6 +933,10 @@ class ExprMixin:
                         self.assume(self.smt.int("len!" + p.path, nonneg=True) >= -i)
                         return self.make_sym(f"{p.path}[{i}]", p.spec)
             return Sym(self.fresh_name(f"{self.ident(base)}[{self.ident(idx)}]"), None)
+        if isinstance(base, Sym):
+            ft = self.feasible_tags(base.path, base.tags)
+            if ft and not any(("pypika_tortoise." + t) in self.repo.classes for t in ft):
+                return Sym(f"{base.path}[{self.ident(idx)}]", None, base.label)
         if isinstance(base, (Obj, Sym)):
             return self.binop_dunder(base, "__getitem__", idx)
         raise Unsupported(f"subscript of {base!r}")
@@ -923,6 +944,11 @@ class ExprMixin:
     def slice_val(self, base, lo, hi):
         if isinstance(base, S):
             return self.shape_slice(base, lo, hi)
+        if isinstance(base, Sym):
+            ft = self.feasible_tags(base.path, base.tags)
+            if ft and ft <= {"str"}:
+                return self.shape_slice(self.to_shape(base), lo, hi)
+            return Tu((PreSeq(f"{base.path}[{self.ident(lo)}:{self.ident(hi)}]", "any"),))
         if isinstance(base, (Tu, Obj, K)):
             parts = self.iter_parts(base)
             if isinstance(lo, K) and isinstance(lo.v, int) and lo.v >= 0 and hi == K(None):
@@ -966,7 +992,7 @@ class ExprMixin:
             raise Unsupported("nested comprehension generators")
         g = e.generators[0]
         seq = self.eval(g.iter)
-        parts = self.iter_parts(seq)
+        parts = self.iter_parts(seq, ordered=(kind != "set"))
         out_parts = []
         for p in parts:
             if isinstance(p, Elems):
@@ -985,7 +1011,7 @@ class ExprMixin:
         if kind == "set":
             return self.new_list_parts(out_parts, kind="set")
         if kind == "gen":
-            return Tu(out_parts)
+            return Gen(out_parts)
         return self.new_list_parts(out_parts)
 
     def elem_of(self, p) -> V:
